@@ -71,7 +71,7 @@ def facts_for_tree(src_repo, patch, workdir, argv):
 def eval_mutant(prop, name, meta, repo, argv, tier='quick'):
     wd = tempfile.mkdtemp(prefix='tu-selftest-')
     try:
-        fp, msg = facts_for_tree(repo, os.path.join(VERIF, 'mutants', name), os.path.join(wd, 'w'), argv)
+        fp, msg = facts_for_tree(repo, os.path.join(VERIF, name) if '/' in name else os.path.join(VERIF, 'mutants', name), os.path.join(wd, 'w'), argv)
         if fp is None:
             return {'mutant': name, 'status': 'skipped', 'why': msg}
         facts = Facts(fp)
